@@ -121,6 +121,38 @@ func (ex *Exec) logEnvResults(st *State, entry string, res []Val) {
 			idx++
 		}
 	}
+	// Snapshot of the first element of a returned slice of structs, taken at the
+	// time of the call (slots 24+: one per leaf of the element, in flatten order;
+	// for each []byte leaf the slot after the last leaf onwards holds the
+	// little-endian 32-bit word at the start of those bytes). Later environment
+	// calls may overwrite the buffers; the snapshot in the trace does not change.
+	if len(res) > 0 && res[0].T != nil {
+		if sl, ok := res[0].T.Underlying().(*types.Slice); ok && len(res[0].L) >= 2 {
+			if _, ok := sl.Elem().Underlying().(*types.Struct); ok {
+				ls := flatten(sl.Elem())
+				extra := 24 + len(ls)
+				for k, l := range ls {
+					if len(l.Dims) != 0 {
+						continue
+					}
+					v := mkSelect(ex.elemArr(st, sl.Elem(), k, res[0].L[0]), res[0].L[1])
+					if l.Sort == sInt {
+						row = mkStore(row, num(int64(24+k)), v)
+					}
+					if l.Kind == lkSliceRef && k+1 < len(ls) {
+						if bs, ok := l.T.Underlying().(*types.Slice); ok {
+							if b, ok := bs.Elem().Underlying().(*types.Basic); ok && b.Kind() == types.Uint8 {
+								bytes := mkSelect(ex.comp(st, compE(types.Typ[types.Uint8], 0), sArr(sInt, sArr(sInt, sInt))), v)
+								boff := mkSelect(ex.elemArr(st, sl.Elem(), k+1, res[0].L[0]), res[0].L[1])
+								row = mkStore(row, num(int64(extra)), composeLE(bytes, boff, 4))
+								extra++
+							}
+						}
+					}
+				}
+			}
+		}
+	}
 	ex.setComp(st, "envlog|arg", sArr(sInt, sArr(sInt, sInt)), mkStore(argC, entry, row))
 }
 
